@@ -255,11 +255,19 @@ func genCase(port string) func(t *rapid.T) Case {
 		if rapid.Bool().Draw(t, "junk?") {
 			k := rapid.IntRange(1, 4).Draw(t, "nJunk")
 			for i := 0; i < k; i++ {
-				j := rapid.SampledFrom([][]byte{{0xFE}, {0xF7}, {0xF4}, {0xF6}, {0xF1, 0x05}, {0xF3, 0x01}, {0xF2, 0x01, 0x02}, {0xF7, 0x33}, {0xF5, 0x11, 0x22}, {0xF8}, {0xFA}, {0xFF}, {0xFC}}).Draw(t, "junk")
+				j := rapid.SampledFrom([][]byte{{0xFE}, {0xF7}, {0xF4}, {0xF6}, {0xF1, 0x05}, {0xF3, 0x01}, {0xF2, 0x01, 0x02}, {0xF7, 0x33}, {0xF5, 0x11, 0x22}, {0xF8}, {0xFA}, {0xFF}, {0xFC}, {0xFD}, {0xF9}, {0xFD, 0x40}}).Draw(t, "junk")
 				out = append(append([]byte{}, j...), out...)
 				if rapid.Bool().Draw(t, "junkAtEnd") {
 					out = append(out[len(j):], j...)
 				}
+			}
+		}
+		if rapid.IntRange(0, 3).Draw(t, "undefinedRealtimeInside?") == 0 && len(out) > 0 {
+			k := rapid.IntRange(1, 3).Draw(t, "nUndefined")
+			for i := 0; i < k; i++ {
+				pos := rapid.IntRange(0, len(out)).Draw(t, "undefPos")
+				b := rapid.SampledFrom([]byte{0xFD, 0xF9}).Draw(t, "undefByte")
+				out = append(out[:pos:pos], append([]byte{b}, out[pos:]...)...)
 			}
 		}
 		c.Chunks = live.Chunking(t, out, 60000)
@@ -280,18 +288,18 @@ func genCase(port string) func(t *rapid.T) Case {
 	}
 }
 
-const rule = "rapid: live streams of the C04 domain (channel, system common, sysex, real-time incl. active sensing, running status, interleaved real-time) plus unpaired/undefined bytes, chunked with inter-arrival times 0..60000 ms; tempo 20..400 BPM (fractional), resolution 24..15360; oracle: track = tempo event (within the 24-bit field's resolution) + exactly the channel messages the reference receiver sees, unchanged and in order, each delta within one tick of the exact rational conversion of the arrival time difference; every other stored event must be a legal SMF event; after Close+WriteTo the strict SMF parser accepts the bytes and ReadFrom returns the same events; non-trivial = >= 3 channel messages with a real-time / system-common message between two of them; distinct by case hash"
+const rule = "rapid: live streams of the C04 domain (channel, system common, sysex, real-time incl. active sensing, running status, interleaved real-time) plus unpaired/undefined bytes (F4 F5 F7 F9 FD) between and inside messages, chunked with inter-arrival times 0..60000 ms; tempo 20..400 BPM (fractional), resolution 24..15360; oracle: track = tempo event (within the 24-bit field's resolution) + exactly the channel messages the reference receiver sees, unchanged and in order, each delta within one tick of the exact rational conversion of the arrival time difference; every other stored event must be a legal SMF event; after Close+WriteTo the strict SMF parser accepts the bytes and ReadFrom returns the same events; non-trivial = >= 3 channel messages with a real-time / system-common message between two of them; distinct by case hash"
 
 var fake = ev.NewCheck("C13", "track-record-fake-port", rule+"; port = deterministic drivers.In of the harness (exact clock)", genCase("fake"), run)
 var tdrv = ev.NewCheck("C13", "track-record-testdrv", rule+"; port = testdrv with Driver.Sleep as clock (first recorded delta exempt: that driver's first time stamp contains the wall clock)", genCase("testdrv"), run)
 var smfrec = ev.NewCheck("C13", "smf-record", rule+"; SMF.RecordFrom on the fake port (its stop function sleeps one second; cases run in parallel)", genCase("smf-fake"), run)
 
-func TestPropTrackRecordFake(t *testing.T)    { fake.Rapid(t, 500, 4000) }
-func TestPropTrackRecordTestdrv(t *testing.T) { tdrv.Rapid(t, 300, 2000) }
+func TestPropTrackRecordFake(t *testing.T)    { fake.Rapid(t, 500, 40000) }
+func TestPropTrackRecordTestdrv(t *testing.T) { tdrv.Rapid(t, 300, 20000) }
 
 // SMF.RecordFrom sleeps a second in stop: few cases, all in parallel, drawn by rapid.
 func TestPropSMFRecord(t *testing.T) {
-	n := ev.N(2, 4) // per shard
+	n := ev.N(2, 40) // per shard
 	ev.SetupRapid("C13/smf-record", n)
 	var cases []Case
 	rapid.Check(t, func(rt *rapid.T) { cases = append(cases, genCase("smf-fake")(rt)) })
